@@ -680,12 +680,18 @@ func (env *Env) callSpecFunc(name string, args []ast.Expr) (Val, bool) {
 		avs = append(avs, v)
 	}
 	saved := fc.cur
+	sameState := env.st == fc.cur
 	if env.st != fc.cur {
 		// evaluate against the environment's state
 		fc.cur = env.st
 	}
 	res := fc.applyContract(callee, c, avs, nil, token.NoPos, callResultTypeOf(callee), "true", shortCallee(key))
 	env.st = fc.cur
+	if sameState && !env.callSite && (c.IsFunction || c.Pure) && len(env.bound) == 0 {
+		// a pure callee changes nothing: its postconditions are facts about the result term and stay in force for
+		// whatever is proved next in this state (otherwise the obligation that contains the call would not see them)
+		return res, true
+	}
 	if saved != nil && saved != env.st && !fc.lemmaMode {
 		fc.cur = saved
 	}
